@@ -205,11 +205,12 @@ const (
 	FamSingle
 	FamNumeric
 	FamVeryLong
+	FamBadUTF8
 	NumFamilies
 )
 
 func FamilyName(f int) string {
-	return [...]string{"ascii", "mixed", "hexprefix", "legacy", "long", "single", "numeric", "verylong"}[f]
+	return [...]string{"ascii", "mixed", "hexprefix", "legacy", "long", "single", "numeric", "verylong", "badutf8"}[f]
 }
 
 // Names returns n distinct non-empty names of the given family.
@@ -258,6 +259,14 @@ func Names(r *rand.Rand, fam, n int) []string {
 				s = fmt.Sprint(1990 + r.Intn(100))
 			default:
 				s = fmt.Sprint(r.Int63())
+			}
+		case FamBadUTF8:
+			// names that are not valid UTF-8 and differ only inside the invalid bytes (legal link names)
+			base := []string{"caf", "na\xefve-", "", "x"}[i%4]
+			bad := []string{"\xe9", "\xe8", "\x80", "\xff", "\xc3", "\xe2\x82", "\xf0\x9f", "\xed\xa0\x80", "\xc0\xaf"}[(i/4)%9]
+			s = base + bad + []string{"", ".txt", "\xfe"}[(i/36)%3]
+			if i >= 108 {
+				s += fmt.Sprint(i)
 			}
 		case FamVeryLong:
 			// longer than any filesystem allows: 256, 257, 300, 1000, 4096 bytes, sharing long prefixes
